@@ -246,6 +246,36 @@ def witness_fails(mods, want, reps=40):
     return False
 
 
+def host_reexport_cases():
+    """-> ([(main, {"b": src})], [expected analysis class])"""
+    import itertools
+    host = [("type HttpResponse", "net"), ("ping", "net"), ("http", "net"), ("trigger minute", "triggers")]
+    cases, want = [], []
+    for r in range(1, len(host) + 1):
+        for sub in itertools.combinations(host, r):
+            imps = ""
+            for hm in ("net", "triggers"):
+                its = [n for n, m in sub if m == hm]
+                if its:
+                    imps += "import { " + ", ".join(sorted(its, key=lambda n: not n.startswith("trigger"))) + " } from " + hm + ";\n"
+            b = imps + 'pub fn g() { println("b.g"); }\nfn main() { }\n'
+            cases.append(('import { g } from b;\nfn main() { g(); }\n', {"b": b}))
+            want.append("ACCEPT")
+            for k in range(1, 3):
+                for asked in itertools.combinations(host, k):
+                    names = [n for n, _ in asked]
+                    # triggers have no `pub`: a module hands on the triggers it imported (the property speaks of functions,
+                    # globals and types) — not judged unless another asked name settles the verdict
+                    if all(n.startswith("trigger") and (n, m) in sub for n, m in asked):
+                        continue
+                    for items in (names, ["g"] + names, names + ["g"]):
+                        # the parser knows `trigger` only at the head of an import list
+                        items = sorted(items, key=lambda n: not n.startswith("trigger"))
+                        cases.append(("import { " + ", ".join(items) + " } from b;\nfn main() { }\n", {"b": b}))
+                        want.append("REJECT")
+    return cases, want
+
+
 def run(ctx):
     st = core.prepare(ctx, MODULES)
     ctx.assumptions += ASSUMPTIONS
@@ -292,6 +322,19 @@ def run(ctx):
         if witness_fails(mods, want, reps=3):
             ctx.violation({"kind": "modgraph", "mods": mods, "want": want}, "C15 scoped calls: a parameter or local of an imported function named like a global of "
                           "its module disturbs a later cross-module call (or a backend fails): output differs from lexical per-module resolution")
+    # host re-export: what a module imported from a host (builtin) module is not an item of that module; asking the module
+    # for it is reported, alone or next to a genuine pub item, whatever else the module imported from the host
+    hcases, hwant = host_reexport_cases()
+    hres = progstream.run_all(hcases, with_spec=False, backends=())
+    for (main, mods), want, r in zip(hcases, hwant, hres):
+        ctx.count(case_key=(main, mods["b"]), nontrivial=True)
+        got = r["A"].split()[0] if r.get("A") else "?"
+        if got != want or (want == "REJECT" and "syn=0" not in r["A"]):
+            ctx.violation({"kind": "prog", "main": main, "mods": mods, "analysis": r["A"][:300], "want": want},
+                          f"C15 host re-export: `{main.splitlines()[0]}` with b = `{mods['b'].splitlines()[0]}`: analysis says {r['A'][:60]}, "
+                          f"expected {want} (only pub items declared in b can be imported from b)")
+            if len(ctx.violations) >= 5:
+                break
     two = list(mg.family_a()) + list(mg.family_b()) + list(mg.family_c()) + list(mg.family_e()) + list(mg.family_r())
     for i in range(0, len(two), 1000):
         if len(ctx.violations) >= 5:
